@@ -135,11 +135,12 @@ class Opaque:
 class Bytes:
     """byte sequence: at(i: z3 BV64 | int) -> z3 BV8; len: z3 BV64.
     kind is informational ('bytes','bytesmut','vec','string','str','slice','array')."""
-    __slots__ = ('_at', 'len', 'kind', 'conc', 'utf8', 'cap')
+    __slots__ = ('_at', 'len', 'kind', 'conc', 'utf8', 'cap', 'segs')
 
     def __init__(self, at, length, kind='bytes', conc=None, utf8=None, cap=None):
         self._at = at
         self.cap = cap   # BytesMut capacity (z3 BV64) when tracked
+        self.segs = None  # tuple of Bytes when this value was built by concatenation (rope view, same contents)
         if isinstance(length, int):
             length = BV(length, 64)
         self.len = length
@@ -162,7 +163,9 @@ class Bytes:
         return concrete(self.len)
 
     def retag(self, kind):
-        return Bytes(self._at, self.len, kind, self.conc, self.utf8, self.cap)
+        r = Bytes(self._at, self.len, kind, self.conc, self.utf8, self.cap)
+        r.segs = self.segs
+        return r
 
     @staticmethod
     def from_terms(terms, kind='bytes'):
@@ -207,7 +210,7 @@ class Bytes:
         return Bytes(lambda i, base=base, off=off: base.at(simp(i + off)), n, kind or self.kind)
 
     def concat(self, other, kind=None):
-        if self.conc is not None and other.conc is not None:
+        if self.conc is not None and other.conc is not None and self.segs is None and other.segs is None:
             return Bytes.from_terms(self.conc + other.conc, kind or self.kind)
         a, b = self, other
         cl = concrete(a.len)
@@ -222,7 +225,9 @@ class Bytes:
             if c is not None and la is not None:
                 return a.at(c) if c < la else b.at(c - la)
             return z3.If(z3.ULT(i, a.len), a.at(i), b.at(simp(i - a.len)))
-        return Bytes(at, simp(a.len + b.len), kind or self.kind)
+        r = Bytes(at, simp(a.len + b.len), kind or self.kind)
+        r.segs = (a.segs or (a,)) + (b.segs or (b,))
+        return r
 
     def overwrite(self, off, src):
         """bytes equal to self except [off, off+src.len) replaced by src"""
